@@ -183,7 +183,7 @@ func (s *Session) checkExpired(now time.Time) error {
 	if now.After(s.expiresAt) {
 		return ErrSessionExpired{ExpiredAt: s.expiresAt}
 	}
-	if s.nonce >= MaxNonce {
+	if atomic.LoadUint64(&s.nonce) >= MaxNonce {
 		return errors.New("session has exceeded message limit")
 	}
 	return nil
